@@ -698,6 +698,17 @@ class Analyzer3:
         if k in ('idx', 'un') and access(e) is not None:
             return self.nonzero_at(e, st) if truth else st
         p = cmp_parts(e)
+        if p is None and k == 'bin' and e.get('op') in CMP_OPS:
+            # a comparison with an element of a constant table of the unit (text[0] == utf8_bom[0])
+            from .parse import _const_table
+            flip = {'<': '>', '>': '<', '<=': '>=', '>=': '<=', '==': '==', '!=': '!='}
+            for (x_, y_, fl) in ((e['l'], e['r'], False), (e['r'], e['l'], True)):
+                y0 = strip_casts(y_)
+                if y0.get('k') == 'idx' and strip_casts(y0['b']).get('k') == 'ref' and const_val(y0['i']) is not None:
+                    tb = _const_table(self.u, strip_casts(y0['b']))
+                    if tb is not None and 0 <= const_val(y0['i']) < len(tb):
+                        p = (strip_casts(x_), flip[e['op']] if fl else e['op'], tb[const_val(y0['i'])])
+                        break
         if p is None:
             return st
         x, op, c = p
